@@ -16,6 +16,7 @@
 package main
 
 import (
+	"bufio"
 	"bytes"
 	"context"
 	"encoding/binary"
@@ -1481,6 +1482,9 @@ type xEvent struct {
 	Len      int        `json:"len"`            // recv: number of octets the server's reader returned
 	Buf      int        `json:"buf"`            // get, put, recv: receive buffer (small number per backing array; 0 = not pooled)
 	Inst     int        `json:"inst"`           // recv: c*8+round read from the ID field of the octets as they came off the wire
+	Err      string     `json:"err"`            // lost: "timeout" | "other" (an error that is not a timeout); hstat: the error text
+	Kind     string     `json:"kind"`           // hstat: what the client did about TSIG on this request: none | good | badmac | badkey
+	Seen     string     `json:"seen"`           // hstat: what the handler saw: "none" (no TSIG, status nil) | "ok" | "err"
 }
 
 type logger struct {
@@ -1646,6 +1650,36 @@ func (c countReader) ReadPacketConn(conn net.PacketConn, t time.Duration) ([]byt
 		c.h.recv(m, a, true)
 	}
 	return m, a, err
+}
+
+// stickyReader: a decorated Reader WITH PER-CONNECTION STATE, the kind a user writes to put a buffered reader (or a
+// PROXY-protocol preface, or accounting) in front of a stream: it binds to the first connection it is asked to read
+// from and reads everything through that connection's bufio.Reader.  The server asks DecorateReader for a reader per
+// connection, so each instance sees one connection only; an instance shared between connections hands the requests
+// of its first connection to the goroutines of the others -- the handler of one client sees another client's request.
+type stickyReader struct {
+	dns.Reader
+	h  *exHandler
+	mu sync.Mutex
+	br *bufio.Reader
+}
+
+func (s *stickyReader) ReadTCP(conn net.Conn, t time.Duration) ([]byte, error) {
+	s.mu.Lock()
+	defer s.mu.Unlock()
+	if s.br == nil {
+		s.br = bufio.NewReader(conn)
+	}
+	var length uint16
+	if err := binary.Read(s.br, binary.BigEndian, &length); err != nil {
+		return nil, err
+	}
+	m := make([]byte, length)
+	if _, err := io.ReadFull(s.br, m); err != nil {
+		return nil, err
+	}
+	s.h.recv(m, conn.RemoteAddr(), false)
+	return m, nil
 }
 
 // small numbers for buffer identities (the address of the backing array)
@@ -1855,9 +1889,102 @@ func multiClient(h *exHandler, lg *logger, c, R, port int, locals []net.IP, lost
 	}
 }
 
+// recordTsig: N clients, each with ONE stream connection to a server that has a TSIG secret, send R requests one after the
+// other: without TSIG, signed with the shared secret, signed with another secret (the MAC does not verify), signed under a
+// key name the server does not know -- in an order that puts an unsigned request behind a failing one and a good one behind
+// both.  The handler logs what ResponseWriter.TsigStatus() / IsTsig() show it for the request in its hands (which request
+// that is, is read from the request's own ID); TLC judges every "hstat" event with Trace_Exchange!StatusFor.
+func recordTsig(out string, N, R int) {
+	lg := &logger{w: hx.NewWriter(out)}
+	kinds := []string{"none", "badmac", "none", "good", "badkey", "none", "good", "none"}
+	const right, wrong = "c2VjcmV0LXNlY3JldC1zZWNyZXQ=", "b3RoZXItb3RoZXItb3RoZXItb3Q="
+	ml := memnet.NewListener()
+	started := make(chan struct{})
+	h := dns.HandlerFunc(func(w dns.ResponseWriter, m *dns.Msg) {
+		id := int(m.Id) - 3000
+		e := xEvent{Ev: "hstat", Tr: "tcptsig", C: id / 64, Round: (id % 64) / 8, Kind: "?"}
+		if id >= 0 && id%8 < len(kinds) {
+			e.Kind = kinds[id%8]
+		}
+		st := w.TsigStatus()
+		switch {
+		case st != nil:
+			e.Seen, e.Err = "err", st.Error()
+		case m.IsTsig() != nil:
+			e.Seen = "ok"
+		default:
+			e.Seen = "none"
+		}
+		lg.emit(e)
+		r := new(dns.Msg)
+		r.SetReply(m)
+		w.WriteMsg(r)
+	})
+	srv := &dns.Server{Listener: ml, Handler: h, ReadTimeout: time.Hour, IdleTimeout: hour, MaxTCPQueries: -1,
+		TsigSecret: map[string]string{"good.": right}, NotifyStartedFunc: func() { close(started) }}
+	done := make(chan error, 1)
+	go func() { done <- srv.ActivateAndServe() }()
+	<-started
+	var wg sync.WaitGroup
+	var answered, lost atomic.Int64
+	for c := 1; c <= N; c++ {
+		wg.Add(1)
+		go func(c int) {
+			defer wg.Done()
+			nc := ml.DialNamed(fmt.Sprintf("t%d", c))
+			defer nc.Close()
+			for round := 0; round < R; round++ {
+				// one stream connection, but a fresh dns.Conn value per request: a dns.Conn that has written a signed
+				// message signs the next one as its continuation (previous MAC as request MAC), which is not the subject here
+				co := &dns.Conn{Conn: nc}
+				k := (round + c) % 8
+				m := new(dns.Msg)
+				m.SetQuestion(fmt.Sprintf("c%dr%d.tsig.", c, round), dns.TypeA)
+				m.Id = uint16(3000 + c*64 + round*8 + k)
+				switch kinds[k] {
+				case "good":
+					co.TsigSecret = map[string]string{"good.": right}
+					m.SetTsig("good.", dns.HmacSHA256, 300, time.Now().Unix())
+				case "badmac":
+					co.TsigSecret = map[string]string{"good.": wrong}
+					m.SetTsig("good.", dns.HmacSHA256, 300, time.Now().Unix())
+				case "badkey":
+					co.TsigSecret = map[string]string{"unknown.": wrong}
+					m.SetTsig("unknown.", dns.HmacSHA256, 300, time.Now().Unix())
+				default:
+					co.TsigSecret = nil
+				}
+				co.SetDeadline(time.Now().Add(20 * time.Second))
+				if err := co.WriteMsg(m); err != nil {
+					lost.Add(1)
+					return
+				}
+				if _, err := co.ReadMsgHeader(nil); err != nil { // the reply is not signed and not looked at
+					lost.Add(1)
+					return
+				}
+				answered.Add(1)
+			}
+		}(c)
+	}
+	wg.Wait()
+	srv.Shutdown()
+	<-done
+	lg.close()
+	var sum hx.Summary
+	sum.Evaluations = lg.w.N
+	sum.Nontrivial = int(answered.Load())
+	sum.Note("exchange_tcptsig", map[string]int64{"answered": answered.Load(), "lost": lost.Load()})
+	sum.Print()
+}
+
 func record(tr, out string, N, R int) {
 	if N > 64 || R > 8 {
 		hx.Die("at most 64 clients and 8 rounds")
+	}
+	if tr == "tcptsig" {
+		recordTsig(out, min(N, 40), R)
+		return
 	}
 	lg := &logger{w: hx.NewWriter(out)}
 	h := &exHandler{tr: tr, log: lg, live: N, k: 3}
@@ -1915,6 +2042,8 @@ func record(tr, out string, N, R int) {
 	case "tcp":
 		ml = memnet.NewListener()
 		srv.Listener = ml
+		// the clients close their connections before the server is shut down, so a reader without deadlines cannot hang
+		srv.DecorateReader = func(rd dns.Reader) dns.Reader { return &stickyReader{Reader: rd, h: h} }
 	case "tcpreal":
 		l, err := net.Listen("tcp", "127.0.0.1:0")
 		if err != nil {
@@ -1996,9 +2125,16 @@ func record(tr, out string, N, R int) {
 				ok := false
 				for try := 0; try < 4 && !ok; try++ {
 					lg.emit(xEvent{Ev: "send", Tr: tr, C: c, Round: round, Try: try, Req: fieldsOf(req), Wire: hx.FromBytes(wire)})
+					// stream transports: every other request travels compressed (question name and the owner of the
+					// address record are the same name); what the handler is given is the same message
+					req.Compress = (tr == "tcp" || tr == "tcpreal") && (c+round)%2 == 1
 					rep, _, err := cl.ExchangeWithConn(req, co)
 					if err != nil {
-						lg.emit(xEvent{Ev: "lost", Tr: tr, C: c, Round: round, Try: try})
+						kind := "other"
+						if isTimeout(err) {
+							kind = "timeout"
+						}
+						lg.emit(xEvent{Ev: "lost", Tr: tr, C: c, Round: round, Try: try, Err: kind})
 						lost.Add(1)
 						if tr != "udp" {
 							break // lossless transport: sending again cannot help
